@@ -12,7 +12,7 @@ PROPERTY = 'C13'
 LEVEL = 'exploration'
 RULE = ('fragment texts built as token lists: a random molecule (or coarse graph) is rendered as SMILES (random start atom, '
         'neighbour order, ring digits 1-9/%nn, ring bond symbol at opening/closing digit, bracket atoms with H count / charge, '
-        'two-letter elements), THEN 0-4 descriptors per atom (kinds $ > < !, optional label, order symbol from . - = # $ or '
+        'two-letter elements, the wildcard [*] on the text reader), THEN 0-4 descriptors per atom (kinds $ > < !, optional label, order symbol from . - = # $ or '
         'none) are inserted after atoms - before, after or between ring digits, or leading for the first atom - and '
         'annotations (positional/keyword weight, chirality, free keys) inside bracket atoms. Expected result is known by '
         'construction: text without insertions, ordered descriptor list kind+label+order per atom index, annotation dict per '
@@ -157,6 +157,16 @@ def cases(seed, tier, shard, nshards):
     for _ in range(SIZES[tier] // nshards):
         coarse = rng.random() < 0.25
         tokens, atoms, annots = render_coarse(rng) if coarse else render_atomistic(rng)
+        wildcard = False
+        if not coarse and rng.random() < 0.08:
+            # the wildcard atom of OpenSMILES, [*]: a bracket atom like any other for the text reader (the all-atom graph
+            # reader has no element for it, so these texts are judged on strip_bonding_descriptors alone)
+            ks = [k for k, t in enumerate(tokens) if t[0] == 'atom' and not (isinstance(t[2], tuple) and t[2][0] == 'H')]
+            if ks:
+                k = rng.choice(ks)
+                t = tokens[k]
+                tokens[k] = ('atom', '[*;' + annots[t[2]][0] + ']', t[2], '[*]') if len(t) > 3 else ('atom', '[*]', t[2])
+                wildcard = True
         text = ''.join(tok_text(t) for t in tokens)
         clean = ''.join(tok_text(t, True) for t in tokens)
         idx = {n: i for i, n in enumerate(atoms)}
@@ -201,7 +211,9 @@ def cases(seed, tier, shard, nshards):
         exp_attr = {str(idx[n]): attrs for n, (txt, attrs) in annots.items()}
         if annots:
             feats.add('annotation')
-        yield dict(text=text, clean=clean, desc={str(k): v for k, v in exp_desc.items()}, attrs=exp_attr,
+        if wildcard:
+            feats.add('wildcard_bracket_atom')
+        yield dict(text_only=wildcard, text=text, clean=clean, desc={str(k): v for k, v in exp_desc.items()}, attrs=exp_attr,
                    natoms=len(atoms), coarse=coarse, features=sorted(feats))
 
 
@@ -238,7 +250,7 @@ def check_once(case, tag=''):
     if ez:
         viol.append(V('c13.spurious_ez', f'{text!r}{tag}: E/Z marks {ez} reported but none written'))
     # end to end through read_fragments
-    if not viol:
+    if not viol and not case.get('text_only'):
         try:
             frags = cgsmiles.read_fragments('{#T=' + text + '}', all_atom=not case['coarse'])
             g = frags['T']
